@@ -120,7 +120,13 @@ def ops_for(fnlabel):
     return []
 
 
-def _parse_witness(out, want_note=None):
+def input_digest(op, args):
+    """How a recorded finding names one grid input: sha256 over the op and its arguments (documents can be tens of kB)."""
+    import hashlib
+    return hashlib.sha256(json.dumps([op, sorted(args.items())]).encode()).hexdigest()[:16]
+
+
+def _parse_witness(out, want_note=None, skip=None, skipped=None):
     """Parse the first WITNESS block of `replay grid` output (the first whose note mentions one of `want_note`, if given)."""
     lines = out.split('\n')
     for i, l in enumerate(lines):
@@ -149,7 +155,12 @@ def _parse_witness(out, want_note=None):
                 elif s.startswith('note=') and 'panicked at' in s:
                     obs = (obs or '') + ' [' + s[len('note='):] + ']'
                 j += 1
-            return dict(op=op, input=args, observed=obs, expected=exp)
+            w = dict(op=op, input=args, observed=obs, expected=exp)
+            if skip is not None and skip(w):
+                if skipped is not None:
+                    skipped.append(w)
+                continue
+            return w
     return None
 
 
@@ -174,9 +185,7 @@ def search(pid, ob, repo, scratch):
         # a safety obligation names its failing sites (file:line): prefer a witness that panics exactly there
         sites = [m.group(1) for s in (ob.get('sites') or []) for m in [re.search(r'@([\w/\.]+:\d+)$', s)] if m]
         if ob.get('kind') == 'termination':
-            sites = ['unbounded recursion', 'HANG']
-        if ob.get('kind') == 'termination':
-            sites = ['unbounded recursion', 'HANG']
+            sites = ['recursion exhausted the stack', 'HANG']
         # edit-history grids: prefer the scenario that exercises the function whose obligation failed
         prefer = {'HasChildren::append': 'append_new_after_child_with_descendants', 'HasChildren::insert_before': 'move_within_parent_before',
                   'XmlElement::last_child_or_self_id': 'append_new_after_child_with_descendants', 'XmlDocument::last_child_or_self_id': 'append_new_after_child_with_descendants',
@@ -195,19 +204,28 @@ def search(pid, ob, repo, scratch):
     return None
 
 
-def standin(pid, ops, repo, scratch):
+def standin(pid, ops, repo, scratch, known=(), known_hits=None):
     """Bounded stand-in used ONLY when a unit is undecided (a construct outside the verifier's dialect): run the replay
     grid of each op against the real code. Returns the first disagreement (a witness dict) or None. Decides nothing when
-    it finds nothing: the check then stays undecided (exit 2)."""
+    it finds nothing: the check then stays undecided (exit 2).
+    `known`: recorded OPEN findings that name one grid input (grid_op + input_digest); such a disagreement is collected
+    in `known_hits` and is not returned -- any other disagreement of the same grid still is."""
     exe = build(repo, scratch)
     cases = 0
+    digests = {(k.get('grid_op'), k.get('input_digest')): k for k in known if k.get('grid_op')}
+
+    def skip(w):
+        k = digests.get((w['op'], input_digest(w['op'], w['input'])))
+        if k is not None:
+            w['known'] = k
+        return k is not None
     for op in ops:
         env = dict(os.environ)
         env['REPLAY_POLICY'] = 'whole' if pid == 'C15' else 'fragment'
-        p = subprocess.run([exe, 'grid', op, '3'], capture_output=True, text=True, timeout=900, env=env)
+        p = subprocess.run([exe, 'grid', op, '3' if not digests else '40'], capture_output=True, text=True, timeout=1800, env=env)
         m = re.search(r'cases=(\d+)', p.stdout)
         cases += int(m.group(1)) if m else 0
-        w = _parse_witness(p.stdout)
+        w = _parse_witness(p.stdout, skip=skip, skipped=known_hits)
         if w:
             w['replayed'] = f'bounded stand-in: real code of {repo} on the replay grid of {op}; first disagreement with the executable mirror of the specification'
             w['grid_summary'] = p.stdout.split('\n')[0]
